@@ -6,6 +6,7 @@ import sys
 
 sys.path.insert(0, os.path.dirname(os.path.dirname(os.path.abspath(__file__))))
 from verif_static.core import run_check, AnalysisError, REPO  # noqa
+from verif_static.norm import same, same_stmt  # noqa
 from verif_static import model as M, cfg as C  # noqa
 
 IOM = 'pysph/sph/bc/inlet_outlet_manager.py'
@@ -203,7 +204,7 @@ def rule_zone_codes(chk):
     ioe = M.find_class(t, 'IOEvaluate')
     loop = M.find_func(ioe, 'loop')
     disp = [a for a in ast.walk(loop) if isinstance(a, ast.Assign) and compact(a.targets[0]) == 'd_disp[d_idx]']
-    ok = bool(disp) and compact(disp[0].value) == 'delx*self.xn+dely*self.yn+delz*self.zn'
+    ok = bool(disp) and same(disp[0].value, 'delx*self.xn+dely*self.yn+delz*self.zn')
     dl = dict((compact(a.targets[0]), compact(a.value)) for a in ast.walk(loop) if isinstance(a, ast.Assign))
     ok = ok and dl.get('delx') == 'd_x[d_idx]-self.x' and dl.get('dely') == 'd_y[d_idx]-self.y' and dl.get('delz') == 'd_z[d_idx]-self.z'
     chk.decide(ok, 'zone-codes', 'signed-distance', node=loop, file=IOM, func='IOEvaluate.loop',
@@ -217,8 +218,8 @@ def rule_zone_codes(chk):
         b1 = compact(i.body[0]) if i.body else ''
         el = i.orelse[0] if i.orelse and isinstance(i.orelse[0], ast.If) else None
         ok = b1 == 'd_ioid[d_idx]=1' and t1 in ('d_disp[d_idx]>1e-06andd_disp[d_idx]-self.maxdist<1e-06',)
-        ok = ok and el is not None and compact(el.test) == 'd_disp[d_idx]-self.maxdist>1e-06' and compact(el.body[0]) == 'd_ioid[d_idx]=2' and \
-            len(el.orelse) == 1 and compact(el.orelse[0]) == 'd_ioid[d_idx]=0'
+        ok = ok and el is not None and same(el.test, 'd_disp[d_idx]-self.maxdist>1e-06') and same_stmt(el.body[0], 'd_ioid[d_idx]=2') and \
+            len(el.orelse) == 1 and same_stmt(el.orelse[0], 'd_ioid[d_idx]=0')
     else:
         ok = False
     chk.decide(ok, 'zone-codes', 'assignment', node=loop, file=IOM, func='IOEvaluate.loop',
